@@ -358,6 +358,26 @@ def run(ctx):
                         oks = all(y[0] == "param" for y in a0) and all(y[0] in ("call", "param") and ("scope" in (y[2] if y[0] == "param" else y[3]) or (y[0] == "call" and y[1].endswith("CapturedScope::as_rc"))) for y in a1)
                         ctx.inst("C04.R2", "body-env#captured-scope", oks, "extend_shared(%s, %s)" % ([y[:2] for y in a0], [y[:2] for y in a1]), fc.loc(x[2]))
     parameters_last(ctx, "C04.R2", core)
+    # nothing about how the body's environment is put together is decided by looking at the caller's environment: the one read of it
+    # is the session-constant `inputs`
+    hfc = core.hir_fn(FCALL)
+    envp = [H.pat_binds(p_)[0] for p_, t_ in zip(hfc["params"], hfc["inputs"]) if "environment::Environment" in t_ and H.pat_binds(p_)]
+    n_cs = 0
+    for x in H.walk(hfc["body"]):
+        c_ = x["cond"] if H.kind(x) == "If" else (x["scrut"] if H.kind(x) == "Match" else None)
+        if c_ is None:
+            continue
+        reads = [y for y in H.walk(c_) if H.kind(y) == "MethodCall" and any(H.path_local(z) in envp for z in H.walk(y["recv"]) if H.kind(z) == "Path")]
+        bare = [y for y in H.walk(c_) if H.kind(y) == "Path" and H.path_local(y) in envp]
+        if not bare:
+            continue
+        const_inputs = reads and all(y["name"] == "get" and y["args"] and H.lit(y["args"][0]) is not None and H.lit(y["args"][0])["v"] == "inputs" for y in reads)
+        if const_inputs:
+            continue
+        n_cs += 1
+        ctx.inst("C04.R2", "body-env#decided-by-caller-environment[%s]" % ",".join(sorted({y["name"] for y in reads}) or ["-"]), False,
+                 "a condition in FunctionDef::call reads the caller's environment (%s): what the body sees then depends on the call site" % H.loc(c_), H.loc(x))
+    ctx.inst("C04.R2", "body-env#call-site-independent", n_cs == 0, "conditions in FunctionDef::call that read the caller's environment (other than the constant `inputs`): %d" % n_cs, H.loc(hfc["body"]))
     # capture at creation
     m0 = H.main_match(hev["body"], "ast::Expr")
     lam = None
@@ -432,6 +452,11 @@ def run(ctx):
         ctx.inst("C04.R2", "capture#parameters-excluded", seeded, "the bound set handed to the capture analysis is seeded with the parameter names: %s" % seeded, H.loc(lam["body"]))
 
     capture_by_name(ctx, "C04.R2", core)
+
+    # ---------------- R6 the exported function carries its captured values
+    ctx.rule("C04.R6", "a function that leaves the process (output / to_string / JSON) carries the values it captured: the inliner substitutes the captured value at every position where the evaluator reads a name (identifier, record shorthand), whatever the name", floor=3)
+    from rules import printers as P_
+    P_.R8_binders(_Only(ctx, lambda k_: k_.startswith("substitution")), "C04.R6", core)
 
     # ---------------- R5 a parameter is bound under the name the user wrote
     from lib.peg import Grammar as G_
